@@ -115,7 +115,7 @@ func c18Invocations(a *Abs, full bool) []inv {
 	add(true, st, "update-ref")
 	add(true, st, "update-ref", "refs/heads/main", strings.Repeat("ab", 20), "extra")
 	// reset
-	pos := []taggedArg{{"HEAD@{0}", nil}, {"HEAD@{1}", nil}, {"HEAD@{9}", nil}, {"HEAD@{10}", nil}, {"HEAD@{x}", []string{"arg-invalid"}}, {"HEAD@{-1}", []string{"arg-invalid"}}, {"HEAD@{99999999999999999999}", []string{"arg-invalid"}}, {"", []string{"arg-invalid"}}}
+	pos := []taggedArg{{"HEAD@{0}", nil}, {"HEAD@{1}", nil}, {"HEAD@{9}", nil}, {"HEAD@{10}", nil}, {"HEAD@{x}", []string{"arg-invalid"}}, {"head@{0}", []string{"arg-invalid"}}, {"Head@{1}", []string{"arg-invalid"}}, {"HEAD@{-1}", []string{"arg-invalid"}}, {"HEAD@{99999999999999999999}", []string{"arg-invalid"}}, {"", []string{"arg-invalid"}}}
 	jp := journalPositions(a)
 	for i := range pos {
 		if n, ok := wellFormedPos(pos[i].v); ok {
